@@ -520,7 +520,20 @@ class FunctionReport:
         self.lines = None
 
 
+MISSING_FUNCTIONS = set()      # short names of contracted functions that no longer exist in the tree being checked
+
+
+def note_missing_functions(repo, registry):
+    MISSING_FUNCTIONS.clear()
+    for c_ in registry:
+        if getattr(c_, 'assumed', False):
+            continue
+        if repo.function(c_.path, c_.name) is None:
+            MISSING_FUNCTIONS.add(c_.name.split('.')[-1])
+
+
 def verify_function(repo, registry, models_factory, c, base_axioms, options=None):
+    note_missing_functions(repo, registry)
     rep = FunctionReport(c)
     fi = repo.function(c.path, c.name)
     if fi is None:
